@@ -1,4 +1,4 @@
-import BoltonsVerif.C06.Roundtrip
+import BoltonsVerif.C06.Scalar
 /-
 C06 — property theorems for the URL quoting / parsing / rendering model.
 
@@ -12,7 +12,7 @@ open C06.Gen
 /-! ## the tables regenerated from the source (re-checked by kernel evaluation after every change) -/
 
 /-- every row of the four quote maps is either the byte itself (ASCII, raw-legal at that position per
-    RFC 3986, not `%`) or `%` + two upper-case hex digits that `_HEX_CHAR_MAP` sends back to the byte,
+    RFC 3986, not `%`) or `%` + two upper-case hex digits that denote the byte (and that the decoder, by `hex_table_exact`, sends back to it),
     and contains no character that the parser treats as a delimiter at that position -/
 theorem quote_tables_ok (c : Comp) : mapOK c = true := mapOK_all c
 
@@ -65,8 +65,30 @@ theorem quote_no_delimiter (c : Comp) (nfc : Text → Text) (s : Text)
   have := quoteBytes_stop c _ (utf8_lt (nfc s) hs) ch (by simpa [quotePart, quoteFull] using hch)
   simpa using this
 
-example : quotePart .query id true [97, 59, 98] = [97, 37, 51, 66, 98] := by decide +kernel
+/- `a;b` as a query part: `;` (a separator for parse_qsl) does not survive raw, and the text comes back.
+   (Stated without the exact rendering: a table that escapes more than it has to is just as good.) -/
+example : (quotePart .query id true [97, 59, 98]).contains 59 = false ∧
+    wellQuoted .query (quotePart .query id true [97, 59, 98]) = true ∧
+    unquote (quotePart .query id true [97, 59, 98]) = [97, 59, 98] := by decide +kernel
 example : (stopSet .query).contains 59 = true := by decide
+
+/-! ## minimal quoting (`full_quote=False`) -/
+
+/-- minimal quoting leaves no character raw that the parser treats as a delimiter at that position … -/
+theorem quote_min_no_delimiter (c : Comp) (nfc : Text → Text) (s : Text) :
+    ∀ ch ∈ quotePart c nfc false s, ch ∉ stopSet c := by
+  intro ch hch
+  have := quoteMin_stop c s ch (by simpa [quotePart] using hch)
+  simpa using this
+
+/-- … and is undone by `unquote` for every text without `%` (non-ASCII characters stay raw; `min_needs_no_pct`
+    shows that the exclusion is necessary) -/
+theorem unquote_quote_min (c : Comp) (nfc : Text → Text) (s : Text) (hs : 37 ∉ s) :
+    unquote (quotePart c nfc false s) = s := by
+  simpa [quotePart] using unquote_quoteMin c s hs
+
+example : unquote (quotePart .path id false [97, 47, 63, 35, 233, 32, 0x1F600]) = [97, 47, 63, 35, 233, 32, 0x1F600] ∧
+    (quotePart .path id false [97, 47, 63, 35, 233, 32]).contains 47 = false := by decide +kernel
 
 /-! ## unquote decodes exactly the well-formed escapes -/
 
@@ -93,8 +115,9 @@ example : unquote [37, 67, 51, 37, 65, 57, 37, 122, 122, 37, 52, 233, 37] = [233
 
 /-- Any texts placed in username, password, path segments, query keys / values and fragment of a
     URL with a valid scheme, host and port (`WF`) are recovered exactly, up to NFC, after
-    `to_text(full_quote=True)` and re-parsing; scheme, host, family and port come back unchanged
-    (`normal` changes nothing else): nothing leaks into a neighbouring component.
+    `to_text(full_quote=True)` and re-parsing; scheme, host, family and port come back unchanged - except a
+    port that `to_text` never renders (zero / the scheme's default), which comes back as no port
+    (`normal` changes nothing else; see `no_leak`): nothing leaks into a neighbouring component.
     Holds for every normaliser with `nfc "" = ""`, every inet_pton, every idna codec that maps
     this host to itself. -/
 theorem roundtrip_full (env : Env) (u : URL) (hW : WF env u) (hnil : env.nfc [] = []) :
@@ -102,17 +125,19 @@ theorem roundtrip_full (env : Env) (u : URL) (hW : WF env u) (hnil : env.nfc [] 
   ⟨fullText env u, toText_urlText env true env.nfc u (hW.toWFq hnil),
    ofText_urlText env true env.nfc u (hW.toWFq hnil) hnil⟩
 
-/-- the same, component by component -/
+/-- the same, component by component.  The port comes back unless it is one that is never rendered (zero, or
+    the default port of the scheme: `portBack`); a positive non-default port (`PortOK`) comes back as it is -/
 theorem no_leak (env : Env) (u : URL) (hW : WF env u) (hnil : env.nfc [] = []) :
     ∃ t v, toText env true u = .ok t ∧ URL.ofText env t = .ok v ∧
-      v.scheme = u.scheme ∧ v.host = u.host ∧ v.port = u.port ∧ v.family = u.family ∧
+      v.scheme = u.scheme ∧ v.host = u.host ∧ v.port = portBack u ∧ (PortOK u → v.port = u.port) ∧
+      v.family = u.family ∧
       v.username = env.nfc u.username ∧ v.password = env.nfc u.password ∧
       v.pathParts = u.pathParts.map env.nfc ∧
       v.query = u.query.map (fun kv => (env.nfc kv.1, kv.2.map env.nfc)) ∧
       v.fragment = env.nfc u.fragment :=
   ⟨fullText env u, normal env u, toText_urlText env true env.nfc u (hW.toWFq hnil),
    ofText_urlText env true env.nfc u (hW.toWFq hnil) hnil,
-   rfl, rfl, rfl, rfl, rfl, rfl, rfl, rfl, rfl⟩
+   rfl, rfl, rfl, fun h => portBack_of_ok h, rfl, rfl, rfl, rfl, rfl, rfl⟩
 
 /-- the parser cuts the fully quoted rendering exactly at the component boundaries (no character
     of a rendered component is a delimiter for the position it stands in) -/
@@ -126,8 +151,8 @@ theorem render_boundaries (env : Env) (u : URL) (hW : WF env u) (hnil : env.nfc 
     URI or relative reference, `URL.ofText env t = .ok u → toText env true u = .ok t₁ →
     URL.ofText env t₁ = .ok u₁ → toText env true u₁ = .ok t₁`.
     PROVED PART: render → parse → render is the identity on the text for every URL that satisfies
-    `WF` (scheme; host a registered name / IPv4 literal or a bracketed IPv6 literal; valid port;
-    absolute path) — in particular for every parsed URL of that shape; relative references,
+    `WF` (a scheme or none; host a registered name / IPv4 literal or a bracketed IPv6 literal; no port or any
+    natural-number port, zero and the scheme's default included; absolute path) — in particular for every parsed URL of that shape; relative references,
     scheme-only / host-less URLs and IDN hosts are covered by the correspondence and the oracle only. -/
 theorem render_fixed_full_partial (env : Env) (hl : NfcLaws env.nfc) (u : URL) (hW : WF env u) :
     ∃ t u₁, toText env true u = .ok t ∧ URL.ofText env t = .ok u₁ ∧ toText env true u₁ = .ok t :=
@@ -136,7 +161,8 @@ theorem render_fixed_full_partial (env : Env) (hl : NfcLaws env.nfc) (u : URL) (
   ⟨fullText env u, normal env u, h.1, h.2.1, h.2.2⟩
 
 /-- minimal quoting: the URL comes back as it is (userinfo, which is always fully quoted,
-    NFC-normalised) whenever no path segment, query key / value or fragment contains a `%` -/
+    NFC-normalised) whenever no path segment, query key / value or fragment contains a `%`; the host may be an
+    internationalised (non-ASCII) name: it is written raw and read back unchanged (`wfmin_iri`) -/
 theorem roundtrip_min (env : Env) (u : URL) (hW : WFmin env u) (hnil : env.nfc [] = []) :
     ∃ t, toText env false u = .ok t ∧ URL.ofText env t = .ok (normalMin env u) :=
   ⟨minText env u, toText_urlText env false id u hW.toWFq, ofText_urlText env false id u hW.toWFq hnil⟩
@@ -150,17 +176,25 @@ theorem render_fixed_min_partial (env : Env) (hl : NfcLaws env.nfc) (u : URL) (h
   have h := render_fixed env false id hl (fun _ _ => rfl) (fun _ => rfl) rfl u hW.toWFq
   ⟨minText env u, normalMin env u, h.1, h.2.1, h.2.2⟩
 
-/-- the `%` exclusion of the minimal-mode theorems is necessary: a path segment `%41` renders
-    minimally as `%41` and comes back as `A` -/
-theorem min_needs_no_pct :
+/-- witnesses for `min_needs_no_pct`: `h://h/%41` with the segment `%41`, and what it comes back as -/
+def envMin : Env := ⟨id, fun _ => false, fun _ => false, some, some⟩
+def uMin (seg : Text) : URL :=
+  { scheme := [104], netlocSep := true, username := [], password := [], family := .none, host := [104],
+    port := none, pathParts := [[], seg], query := [], fragment := [] }
+
+theorem min_witness : pathDelims.contains 37 = false →
+    toText envMin false (uMin [37, 52, 49]) = .ok [104, 58, 47, 47, 104, 47, 37, 52, 49] ∧
+    URL.ofText envMin [104, 58, 47, 47, 104, 47, 37, 52, 49] = .ok (uMin [65]) := by
+  decide +kernel
+
+/-- the `%` exclusion of the minimal-mode theorems is necessary as long as minimal quoting leaves `%` alone (`%` is
+    not in `_PATH_DELIMS` - true of the regenerated `Gen.pathDelims` at /repo HEAD; were it added, this theorem
+    would hold vacuously instead of failing): a path segment `%41` renders minimally as `%41` and comes back as `A` -/
+theorem min_needs_no_pct (h : pathDelims.contains 37 = false) :
     ∃ (env : Env) (u v : URL) (t : Text), toText env false u = .ok t ∧ URL.ofText env t = .ok v ∧
       u.pathParts = [[], [37, 52, 49]] ∧ v.pathParts = [[], [65]] :=
-  ⟨⟨id, fun _ => false, fun _ => false, some, some⟩,
-   { scheme := [104], netlocSep := true, username := [], password := [], family := .none, host := [104],
-     port := none, pathParts := [[], [37, 52, 49]], query := [], fragment := [] },
-   { scheme := [104], netlocSep := true, username := [], password := [], family := .none, host := [104],
-     port := none, pathParts := [[], [65]], query := [], fragment := [] },
-   [104, 58, 47, 47, 104, 47, 37, 52, 49], by decide +kernel, by decide +kernel, rfl, rfl⟩
+  ⟨envMin, uMin [37, 52, 49], uMin [65], [104, 58, 47, 47, 104, 47, 37, 52, 49],
+   (min_witness h).1, (min_witness h).2, rfl, rfl⟩
 
 /-! non-vacuity: a concrete environment and URL satisfying `WF` / `WFmin`, with hostile texts -/
 
@@ -175,12 +209,11 @@ def u0 : URL :=
     fragment := [102, 35, 10] }
 
 theorem wf_u0 : WF env0 u0 where
-  scheme_ne := by decide
   scheme_ok := by decide
   host_ne := by decide
   host_form := .name (by decide) (by decide) (fun _ => rfl)
-  idna_dec := rfl
-  port_ok := Or.inr ⟨8042, rfl, by decide, by decide⟩
+  idna_dec := fun _ => rfl
+  port_ok := Or.inr ⟨8042, rfl⟩
   path_abs := ⟨_, rfl⟩
   query_ok := by decide
   scalars := ⟨by decide, by decide, by decide, by decide, by
@@ -190,13 +223,22 @@ theorem wf_u0 : WF env0 u0 where
     · exact ⟨by decide, by intro v hv; cases hv; decide⟩
     · exact ⟨by decide, by intro v hv; cases hv; decide⟩⟩
 
+/- port 80 of an `http` URL and port 0 are not rendered and therefore come back as "no port"; 8042 comes back -/
+example : portBack { u0 with port := some 80 } = none ∧ portBack { u0 with port := some 0 } = none ∧
+    portBack u0 = some 8042 := by decide +kernel
+
+/-- the same URL with the default port of its scheme (never rendered) is still inside the fixed-point theorems -/
+theorem wf_u0_default_port : WF env0 { u0 with port := some 80 } := wf_u0.withPort (some 80)
+
+example : ((toText env0 true { u0 with port := some 80 }).toOption.bind fun t => (URL.ofText env0 t).toOption) =
+    some (normal env0 { u0 with port := none }) := by decide +kernel
+
 theorem wfmin_u0 : WFmin env0 u0 where
-  scheme_ne := by decide
   scheme_ok := by decide
   host_ne := by decide
   host_form := .name (by decide) (by decide) (fun h => by cases h)
-  idna_dec := rfl
-  port_ok := Or.inr ⟨8042, rfl, by decide, by decide⟩
+  idna_dec := fun _ => rfl
+  port_ok := Or.inr ⟨8042, rfl⟩
   path_abs := ⟨_, rfl⟩
   query_ok := by decide
   user_scalar := by decide
@@ -210,6 +252,34 @@ theorem wfmin_u0 : WFmin env0 u0 where
     · exact ⟨by decide, by intro v hv; cases hv; decide⟩
   no_pct_frag := by decide
 
+/-- an IRI with an internationalised host: `http://bücher.de/ä?ö#ü`.  With minimal quoting every non-ASCII character
+    - in the host too - is written raw and read back as it is (no idna codec involved), so it is inside `WFmin` -/
+def uIri : URL :=
+  { scheme := [104, 116, 116, 112], netlocSep := false, username := [], password := [], family := .none,
+    host := [98, 252, 99, 104, 101, 114, 46, 100, 101], port := none, pathParts := [[], [228]],
+    query := [([246], none)], fragment := [252] }
+
+theorem wfmin_iri : WFmin env0 uIri where
+  scheme_ok := by decide
+  host_ne := by decide
+  host_form := .name (by decide) (by decide) (fun h => by cases h)
+  idna_dec := fun h => by revert h; decide
+  port_ok := Or.inl rfl
+  path_abs := ⟨_, rfl⟩
+  query_ok := by decide
+  user_scalar := by decide
+  pw_scalar := by decide
+  no_pct_parts := by decide
+  no_pct_query := by
+    intro kv hkv
+    simp only [uIri, List.mem_cons, List.mem_nil_iff, or_false] at hkv
+    subst hkv
+    exact ⟨by decide, by intro v hv; cases hv⟩
+  no_pct_frag := by decide
+
+example : ((toText env0 false uIri).toOption.bind fun t => (URL.ofText env0 t).toOption) =
+    some { uIri with netlocSep := true } := by decide +kernel
+
 /-- an IPv6 host: `ws://[::1]:81/%5B?%5D` (with an `inet_pton` that accepts `::1`) -/
 def env6 : Env := ⟨id, fun _ => false, fun h => h == [58, 58, 49], some, some⟩
 
@@ -218,12 +288,11 @@ def u6 : URL :=
     host := [58, 58, 49], port := some 81, pathParts := [[], [91]], query := [([93], none)], fragment := [] }
 
 theorem wf_u6 : WF env6 u6 where
-  scheme_ne := by decide
   scheme_ok := by decide
   host_ne := by decide
   host_form := .v6 rfl (by decide) (by decide) (by decide)
-  idna_dec := rfl
-  port_ok := Or.inr ⟨81, rfl, by decide, by decide⟩
+  idna_dec := fun _ => rfl
+  port_ok := Or.inr ⟨81, rfl⟩
   path_abs := ⟨_, rfl⟩
   query_ok := by decide
   scalars := ⟨by decide, by decide, by decide, by decide, by
@@ -232,15 +301,289 @@ theorem wf_u6 : WF env6 u6 where
     subst hkv
     exact ⟨by decide, by intro v hv; cases hv⟩⟩
 
-example : (toText env6 true u6).toOption = some
-    [119, 115, 58, 47, 47, 91, 58, 58, 49, 93, 58, 56, 49, 47, 37, 53, 66, 63, 37, 53, 68] := by decide +kernel
+/- non-vacuity of the conclusions, evaluated: the rendering parses back to the same URL.  (The exact text is
+   not pinned down: which characters beyond the delimiters a table escapes is the code's choice.) -/
+example : ((toText env6 true u6).toOption.bind fun t => (URL.ofText env6 t).toOption) = some (normal env6 u6) := by
+  decide +kernel
 
 example : NfcLaws env0.nfc := ⟨rfl, fun _ => rfl, fun _ h => h⟩
 
-example : (toText env0 true u0).toOption = some
-    [104, 116, 116, 112, 58, 47, 47, 97, 59, 98, 58, 112, 37, 52, 48, 119, 64, 104, 58, 56, 48, 52, 50,
-     47, 120, 37, 50, 70, 121, 47, 37, 51, 70, 63, 107, 37, 50, 54, 61, 118, 37, 51, 68, 37, 51, 66, 38, 101, 61,
-     35, 102, 37, 50, 51, 37, 48, 65] := by decide +kernel
+example : ((toText env0 true u0).toOption.bind fun t => (URL.ofText env0 t).toOption) = some (normal env0 u0) ∧
+    (normal env0 u0).username = [97, 59, 98] ∧ (normal env0 u0).fragment = [102, 35, 10] := by
+  decide +kernel
+
+/- … and none of the hostile characters stands raw where the parser would cut: no `@` `/` `?` `#` beyond the
+   structural ones, no raw line feed -/
+example : ((toText env0 true u0).toOption.map fun t =>
+    (t.count 64, t.count 63, t.count 35, t.count 10, (t.filter (· == 47)).length)) = some (1, 1, 1, 0, 4) := by
+  decide +kernel
+
+/-! ## URLs and references without an authority (`mailto:…`, `urn:…`, `file:///…`, relative references) -/
+
+/-- FULL STATEMENT: see `render_fixed_full_partial`.  PROVED PART (second family of shapes): render → parse →
+    render is the identity on the text for every URL WITHOUT authority (`WFna`: no host, no userinfo; a scheme -
+    whether or not it uses a netloc - or none, i.e. a relative reference; at least one path segment; arbitrary
+    texts in path segments, query and fragment - a `:` in the first segment of a relative reference included:
+    `to_text` escapes it, `colon_escape_invisible`).  Covers `scheme:rootless/path`, `scheme:/abs`, `scheme:///abs` (the `//` written for a netloc scheme
+    with an empty authority, and for a path that begins with `//`), `/abs`, `rel/path`, `?q`, `#f`, the empty
+    reference.  What comes back (`normalN`): the components NFC-normalised, `//` remembered, no port. -/
+theorem render_fixed_full_noauth_partial (env : Env) (hl : NfcLaws env.nfc) (u : URL) (hW : WFna env u) :
+    ∃ t u₁, toText env true u = .ok t ∧ URL.ofText env t = .ok u₁ ∧ toText env true u₁ = .ok t ∧
+      u₁.scheme = u.scheme ∧ u₁.host = [] ∧ u₁.pathParts = u.pathParts.map env.nfc ∧
+      u₁.query = u.query.map (fun kv => (env.nfc kv.1, kv.2.map env.nfc)) ∧ u₁.fragment = env.nfc u.fragment :=
+  have h := render_fixedN env true env.nfc
+    (fun c s => by simp [quotePart, quoteFull_idem _ hl.idem]) hl.idem u hW.toWFnq
+  ⟨urlTextN env true u, normalN env true env.nfc u, h.1, h.2.1, h.2.2, rfl, rfl, rfl, rfl, rfl⟩
+
+/-- the same in minimal mode, when no path segment, query key / value or fragment contains `%` (`WFnaMin`) -/
+theorem render_fixed_min_noauth_partial (env : Env) (u : URL) (hW : WFnaMin env u) :
+    ∃ t u₁, toText env false u = .ok t ∧ URL.ofText env t = .ok u₁ ∧ toText env false u₁ = .ok t ∧
+      u₁.scheme = u.scheme ∧ u₁.host = [] ∧ u₁.pathParts = u.pathParts ∧ u₁.query = u.query ∧
+      u₁.fragment = u.fragment :=
+  have h := render_fixedN env false id (fun _ _ => rfl) (fun _ => rfl) u hW.toWFnq
+  ⟨urlTextN env false u, normalN env false id u, h.1, h.2.1, h.2.2, rfl, rfl, by simp [normalN], by
+    simp only [normalN, decPair]
+    conv => rhs; rw [← List.map_id u.query]
+    apply List.map_congr_left
+    intro kv _
+    obtain ⟨k, v⟩ := kv
+    cases v <;> rfl, rfl⟩
+
+/-- the colon escape that `to_text` applies to the first path segment of a relative reference
+    (`first.replace(':', '%3A')`) is invisible to `unquote`, and leaves no raw `:` behind (nothing the parser could
+    read as the end of a scheme) -/
+theorem colon_escape_invisible (q : Text) : unquote (escColon q) = unquote q ∧ 58 ∉ escColon q :=
+  ⟨unquote_escColon q, escColon_no_colon q⟩
+
+/-- the `//` that `to_text` writes without an authority is remembered by the parser and written again, and a
+    URL parsed without `//` does not get one (whatever the scheme tables say) -/
+theorem netloc_slashes_stable (scheme : Text) (parsedWithSlashes : Bool) (path : Text) :
+    slashesS scheme (slashesS scheme parsedWithSlashes path) path = slashesS scheme parsedWithSlashes path :=
+  slashesS_idem scheme parsedWithSlashes path
+
+/-! non-vacuity: `mailto:a b@x?s=%`, `file:///e t/c` (a netloc scheme, empty authority), the relative references
+    `/a?b` … `x/../y#z`, and `//`-initial paths -/
+
+/-- `mailto:` + one rootless segment `a b@x`, query `s` = `%` -/
+def uMail : URL :=
+  { scheme := [109, 97, 105, 108, 116, 111], netlocSep := false, username := [], password := [], family := .none,
+    host := [], port := none, pathParts := [[97, 32, 98, 64, 120]], query := [([115], some [37])], fragment := [] }
+
+/-- path segments + fragment `#?` under a scheme (or none) -/
+def uPath (scheme : Text) (parts : List Text) : URL :=
+  { scheme := scheme, netlocSep := false, username := [], password := [], family := .none, host := [], port := none,
+    pathParts := parts, query := [], fragment := [35, 63] }
+
+theorem wfna_mail : WFna env0 uMail where
+  scheme_ok := by decide
+  host_nil := rfl
+  user_nil := rfl
+  pw_nil := rfl
+  parts_ne := by decide
+  query_ok := by decide
+  scalars := ⟨by decide, by decide, by decide, by decide, by
+    intro kv hkv
+    simp only [uMail, List.mem_cons, List.mem_nil_iff, or_false] at hkv
+    subst hkv
+    exact ⟨by decide, by intro v hv; cases hv; decide⟩⟩
+
+/-- `file:///e t/c#%23%3F`: a scheme that uses a netloc, an empty authority -/
+theorem wfna_file : WFna env0 (uPath [102, 105, 108, 101] [[], [101, 32, 116], [99]]) where
+  scheme_ok := by decide
+  host_nil := rfl
+  user_nil := rfl
+  pw_nil := rfl
+  parts_ne := by decide
+  query_ok := by decide
+  scalars := ⟨by decide, by decide, by decide, by decide, by intro kv hkv; cases hkv⟩
+
+/-- the relative reference `/e t/c#…` -/
+theorem wfna_rel : WFna env0 (uPath [] [[], [101, 32, 116], [99]]) where
+  scheme_ok := by decide
+  host_nil := rfl
+  user_nil := rfl
+  pw_nil := rfl
+  parts_ne := by decide
+  query_ok := by decide
+  scalars := ⟨by decide, by decide, by decide, by decide, by intro kv hkv; cases hkv⟩
+
+/-- a relative path that begins with `//` (segments `''`, `''`, `c`): `to_text` writes an empty authority before it -/
+theorem wfna_slashes : WFna env0 (uPath [] [[], [], [99]]) where
+  scheme_ok := by decide
+  host_nil := rfl
+  user_nil := rfl
+  pw_nil := rfl
+  parts_ne := by decide
+  query_ok := by decide
+  scalars := ⟨by decide, by decide, by decide, by decide, by intro kv hkv; cases hkv⟩
+
+theorem wfnamin_rel : WFnaMin env0 (uPath [] [[], [101, 32, 116], [99]]) where
+  scheme_ok := by decide
+  host_nil := rfl
+  user_nil := rfl
+  pw_nil := rfl
+  parts_ne := by decide
+  query_ok := by decide
+  no_pct_parts := by decide
+  no_pct_query := by intro kv hkv; cases hkv
+  no_pct_frag := by decide
+
+/-- the relative reference with the segments `a:b` and `c:d`: renders as `a%3Ab/c:d`-like text without a raw colon
+    before the first `/` -/
+theorem wfna_rel_colon : WFna env0 (uPath [] [[97, 58, 98], [99, 58, 100]]) where
+  scheme_ok := by decide
+  host_nil := rfl
+  user_nil := rfl
+  pw_nil := rfl
+  parts_ne := by decide
+  query_ok := by decide
+  scalars := ⟨by decide, by decide, by decide, by decide, by intro kv hkv; cases hkv⟩
+
+example : ((toText env0 true (uPath [] [[97, 58, 98], [99, 58, 100]])).toOption.map fun t =>
+    ((t.takeWhile (· != 47)).contains 58, (URL.ofText env0 t).toOption.map (·.pathParts))) =
+    some (false, some [[97, 58, 98], [99, 58, 100]]) := by decide +kernel
+
+/- `mailto:` has no `//`, `file:` gets one with an empty authority, and so does the relative path `//c`: the
+   slashes in the renderings are 0 / 4 (`file:` + `//` + `/e%20t/c`) / 4 (`//` + `//c`) -/
+example : ((toText env0 true uMail).toOption.map fun t => t.count 47) = some 0 ∧
+    ((toText env0 true (uPath [102, 105, 108, 101] [[], [101, 32, 116], [99]])).toOption.map fun t => t.count 47) = some 4 ∧
+    ((toText env0 true (uPath [] [[], [], [99]])).toOption.map fun t => t.count 47) = some 4 := by decide +kernel
+
+example : ((toText env0 true (uPath [102, 105, 108, 101] [[], [101, 32, 116], [99]])).toOption.bind fun t =>
+    (URL.ofText env0 t).toOption) = some { uPath [102, 105, 108, 101] [[], [101, 32, 116], [99]] with netlocSep := true } := by
+  decide +kernel
+
+/-! ## the fixed points, stated about TEXTS
+
+The theorems above are about URL objects of a given shape.  Every URL that the parser returns has that shape
+(`parsed_WF`, `parsed_WFna`, …: its scheme consists of scheme characters, it has at least one path segment - an
+absolute path when there is a host -, `parse_qsl` never produces an (empty key, no value) pair), so the fixed-point
+clause can be stated the way the property reads: parse a text, render, parse, render - the two renderings are equal. -/
+
+/-- what the theorems below assume of the normaliser besides `NfcLaws`: encodable text (Unicode scalar values
+    only, i.e. a Python `str` without lone surrogates) stays encodable - true of NFC -/
+def NfcScalar (nfc : Text → Text) : Prop :=
+  ∀ s, (∀ x ∈ s, isScalar x = true) → ∀ x ∈ nfc s, isScalar x = true
+
+/-- `unquote` of encodable text is encodable text: CPython's UTF-8 decoder with errors='replace' never produces a
+    lone surrogate or a value beyond U+10FFFF, whatever escapes the text contains … -/
+theorem unquote_scalar (s : Text) (hs : ∀ x ∈ s, isScalar x = true) : ∀ x ∈ unquote s, isScalar x = true :=
+  unquote_scalar_of s hs
+
+/-- … hence every component text of a URL parsed from encodable text is encodable (and can be rendered again) -/
+theorem parsed_components_scalar (env : Env) (hnfc : NfcScalar env.nfc) (t : Text) (u : URL)
+    (h : URL.ofText env t = .ok u) (ht : ∀ x ∈ t, isScalar x = true) : Scalars env u :=
+  parsed_scalars hnfc h ht
+
+/- `%ED%A0%80` (the UTF-8 form of the surrogate U+D800) and `%F4%90%80%80` (beyond U+10FFFF) decode to
+   replacement characters, not to the forbidden values -/
+example : unquote [37, 69, 68, 37, 65, 48, 37, 56, 48] = [0xFFFD, 0xFFFD, 0xFFFD] ∧
+    unquote [37, 70, 52, 37, 57, 48, 37, 56, 48, 37, 56, 48] = [0xFFFD, 0xFFFD, 0xFFFD, 0xFFFD] := by decide +kernel
+
+/-- FULL STATEMENT (fixed-point clause, full quoting): for every well-formed URL / reference `t`,
+    `render(parse(render(parse t))) = render(parse t)`.
+    PROVED PART: for EVERY encodable text `t` - well-formed or not - that parses to a URL with a host (a registered
+    name or IPv4 literal that the idna codec leaves alone, or an IPv6 literal; with or without scheme, userinfo,
+    port - any natural number -, path, query, fragment).
+    Not covered: IDN hosts, userinfo with an empty host, negative ports (which are not well-formed anyway). -/
+theorem parsed_fixed_full_partial (env : Env) (hl : NfcLaws env.nfc) (hnfc : NfcScalar env.nfc) (t : Text) (u : URL)
+    (ht : ∀ x ∈ t, isScalar x = true)
+    (h : URL.ofText env t = .ok u) (hne : u.host ≠ []) (hhost : HostOK env true u)
+    (hidna : isAsciiText u.host = true → env.idnaDec u.host = some u.host) (hport : PortNat u) :
+    ∃ t₁ u₁, toText env true u = .ok t₁ ∧ URL.ofText env t₁ = .ok u₁ ∧ toText env true u₁ = .ok t₁ :=
+  render_fixed_full_partial env hl u (parsed_WF hl h hne hhost hidna hport (parsed_scalars hnfc h ht))
+
+/-- the same for every encodable text that parses to a URL or reference WITHOUT authority (no host, no userinfo):
+    no further condition - in particular every well-formed `scheme:path?q#f`, `scheme:///path`, relative reference -/
+theorem parsed_fixed_full_noauth_partial (env : Env) (hl : NfcLaws env.nfc) (hnfc : NfcScalar env.nfc) (t : Text) (u : URL)
+    (ht : ∀ x ∈ t, isScalar x = true)
+    (h : URL.ofText env t = .ok u) (hh : u.host = []) (hu : u.username = []) (hp : u.password = []) :
+    ∃ t₁ u₁, toText env true u = .ok t₁ ∧ URL.ofText env t₁ = .ok u₁ ∧ toText env true u₁ = .ok t₁ :=
+  have ⟨t₁, u₁, h1, h2, h3, _⟩ := render_fixed_full_noauth_partial env hl u
+    (parsed_WFna hl h hh hu hp (parsed_scalars hnfc h ht))
+  ⟨t₁, u₁, h1, h2, h3⟩
+
+/-- minimal quoting, when no decoded path segment, query key / value or fragment contains `%` -/
+theorem parsed_fixed_min_partial (env : Env) (hl : NfcLaws env.nfc) (hnfc : NfcScalar env.nfc) (t : Text) (u : URL)
+    (ht : ∀ x ∈ t, isScalar x = true)
+    (h : URL.ofText env t = .ok u) (hne : u.host ≠ []) (hhost : HostOK env false u)
+    (hidna : isAsciiText u.host = true → env.idnaDec u.host = some u.host) (hport : PortNat u)
+    (h1 : ∀ s ∈ u.pathParts, 37 ∉ s) (h2 : ∀ kv ∈ u.query, 37 ∉ kv.1 ∧ ∀ v, kv.2 = some v → 37 ∉ v)
+    (h3 : 37 ∉ u.fragment) :
+    ∃ t₁ u₁, toText env false u = .ok t₁ ∧ URL.ofText env t₁ = .ok u₁ ∧ toText env false u₁ = .ok t₁ :=
+  have hs := parsed_scalars hnfc h ht
+  render_fixed_min_partial env hl u (parsed_WFmin h hne hhost hidna hport hs.username hs.password h1 h2 h3)
+
+theorem parsed_fixed_min_noauth_partial (env : Env) (t : Text) (u : URL)
+    (h : URL.ofText env t = .ok u) (hh : u.host = []) (hu : u.username = []) (hp : u.password = [])
+    (h1 : ∀ s ∈ u.pathParts, 37 ∉ s) (h2 : ∀ kv ∈ u.query, 37 ∉ kv.1 ∧ ∀ v, kv.2 = some v → 37 ∉ v)
+    (h3 : 37 ∉ u.fragment) :
+    ∃ t₁ u₁, toText env false u = .ok t₁ ∧ URL.ofText env t₁ = .ok u₁ ∧ toText env false u₁ = .ok t₁ :=
+  have ⟨t₁, u₁, h1', h2', h3', _⟩ := render_fixed_min_noauth_partial env u (parsed_WFnaMin h hh hu hp h1 h2 h3)
+  ⟨t₁, u₁, h1', h2', h3'⟩
+
+example : NfcScalar env0.nfc := fun _ h => h
+
+/-- the component clause for what the PARSER put into the components: for every encodable text that parses to a URL
+    of the first family, the full rendering parses back to the same component texts (NFC-normalised), scheme, host
+    and family, and the port unless it is one that is never written (`normal`) -/
+theorem parsed_roundtrip_full (env : Env) (hl : NfcLaws env.nfc) (hnfc : NfcScalar env.nfc) (t : Text) (u : URL)
+    (ht : ∀ x ∈ t, isScalar x = true)
+    (h : URL.ofText env t = .ok u) (hne : u.host ≠ []) (hhost : HostOK env true u)
+    (hidna : isAsciiText u.host = true → env.idnaDec u.host = some u.host) (hport : PortNat u) :
+    ∃ t₁, toText env true u = .ok t₁ ∧ URL.ofText env t₁ = .ok (normal env u) :=
+  roundtrip_full env u (parsed_WF hl h hne hhost hidna hport (parsed_scalars hnfc h ht)) hl.nil
+
+/-- the same with the conditions on the host DERIVED from the parser: for every encodable text that parses to a URL
+    whose host is ASCII, not an IPv6 literal and without `[` (a registered name or IPv4 literal), that the idna
+    encoder leaves alone, with a natural-number port or none.  `IdnaAsciiId`: a law of the idna decoder (an ASCII
+    result is the name that went in). -/
+theorem parsed_fixed_full_name_partial (env : Env) (hl : NfcLaws env.nfc) (hnfc : NfcScalar env.nfc) (hid : IdnaAsciiId env)
+    (t : Text) (u : URL) (ht : ∀ x ∈ t, isScalar x = true) (h : URL.ofText env t = .ok u)
+    (hne : u.host ≠ []) (hasc : isAsciiText u.host = true) (h6 : u.family ≠ .inet6) (h91 : 91 ∉ u.host)
+    (henc : env.idnaEnc u.host = some u.host) (hport : PortNat u) :
+    ∃ t₁ u₁, toText env true u = .ok t₁ ∧ URL.ofText env t₁ = .ok u₁ ∧ toText env true u₁ = .ok t₁ :=
+  have ⟨hc, hf, hd⟩ := parsed_host_name hid h hne hasc h6 h91
+  parsed_fixed_full_partial env hl hnfc t u ht h hne (.name hc hf (fun _ => henc)) (fun _ => hd) hport
+
+theorem parsed_fixed_min_name_partial (env : Env) (hl : NfcLaws env.nfc) (hnfc : NfcScalar env.nfc) (hid : IdnaAsciiId env)
+    (t : Text) (u : URL) (ht : ∀ x ∈ t, isScalar x = true) (h : URL.ofText env t = .ok u)
+    (hne : u.host ≠ []) (hasc : isAsciiText u.host = true) (h6 : u.family ≠ .inet6) (h91 : 91 ∉ u.host)
+    (hport : PortNat u)
+    (h1 : ∀ s ∈ u.pathParts, 37 ∉ s) (h2 : ∀ kv ∈ u.query, 37 ∉ kv.1 ∧ ∀ v, kv.2 = some v → 37 ∉ v)
+    (h3 : 37 ∉ u.fragment) :
+    ∃ t₁ u₁, toText env false u = .ok t₁ ∧ URL.ofText env t₁ = .ok u₁ ∧ toText env false u₁ = .ok t₁ :=
+  have ⟨hc, hf, hd⟩ := parsed_host_name hid h hne hasc h6 h91
+  parsed_fixed_min_partial env hl hnfc t u ht h hne (.name hc hf (fun hh => by cases hh)) (fun _ => hd) hport h1 h2 h3
+
+example : IdnaAsciiId env0 := fun s h hs _ => by
+  simp only [env0, Option.some.injEq] at hs
+  exact hs.symm
+
+/-- what the parser never returns: an empty list of path segments, an (empty key, no value) query parameter, a
+    scheme with a character of `:/?#`; and with a host the path is absolute or empty -/
+theorem parsed_shape (env : Env) (t : Text) (u : URL) (h : URL.ofText env t = .ok u) :
+    u.pathParts ≠ [] ∧ (∀ kv ∈ u.query, ¬ (kv.1 = [] ∧ kv.2 = none)) ∧
+    (∀ c ∈ u.scheme, notIn schemeStop c = true) ∧ (u.host ≠ [] → ∃ rest, u.pathParts = [] :: rest) := by
+  refine ⟨?_, ?_, ?_, ofText_path_abs h⟩
+  · obtain ⟨p, hp⟩ := (ofText_fields h).parts
+    rw [hp]; simp only [ne_eq, List.map_eq_nil_iff]; exact List.splitOn_ne_nil 47 p
+  · obtain ⟨q, hq⟩ := (ofText_fields h).query
+    rw [hq]; exact parseQsl_ok q
+  · rw [(ofText_fields h).scheme]; exact schemeOf_chars t
+
+/- non-vacuity, evaluated: the text `HTTP://u:p@h:0080/a%2Fb/?k=%26&&e#` (not normalised: upper-case scheme, leading
+   zeros and a default port, an escaped `/`, an empty parameter, an empty fragment) parses; its rendering differs
+   from it and is a fixed point.  And the scheme-less `//h/p` (a network-path reference), which the old `WF` excluded. -/
+def tMessy : Text := [72, 84, 84, 80, 58, 47, 47, 117, 58, 112, 64, 104, 58, 48, 48, 56, 48, 47, 97, 37, 50, 70, 98, 47, 63,
+  107, 61, 37, 50, 54, 38, 38, 101, 35]
+
+example : ((URL.ofText env0 tMessy).toOption.bind fun u => (toText env0 true u).toOption.bind fun t₁ =>
+    (URL.ofText env0 t₁).toOption.bind fun u₁ => (toText env0 true u₁).toOption.map fun t₂ =>
+      (t₁ == t₂, t₁ == tMessy, u.host, u.port)) = some (true, false, [104], some 80) := by decide +kernel
+
+example : ((URL.ofText env0 [47, 47, 104, 47, 112]).toOption.bind fun u => (toText env0 true u).toOption.map fun t₁ =>
+    (t₁, u.scheme, u.host)) = some ([47, 47, 104, 47, 112], [], [104]) := by decide +kernel
 
 /-! ## totality -/
 
@@ -252,8 +595,31 @@ theorem url_total (env : Env) (t : Text) :
   | ok u => exact Or.inl ⟨u, rfl⟩
   | error e => rw [ofText_err h]; exact Or.inr rfl
 
-/-- the port text is handed to `int()`: whatever it is - digits of any script, superscript or circled
-    digits (`str.isdigit` but not decimal), fractions, letters, white space of any kind - the outcome is a
+/-- `to_text` never raises in minimal mode; in full mode the only exception is the `UnicodeError` of the idna
+    encoder refusing a (non-IPv6) host -/
+theorem to_text_total (env : Env) (full : Bool) (u : URL) :
+    (∃ t, toText env full u = .ok t) ∨
+    (toText env full u = .error .unicodeError ∧ full = true ∧ u.host ≠ [] ∧ u.family ≠ .inet6 ∧
+      env.idnaEnc u.host = none) := by
+  unfold toText authority
+  by_cases hh : u.host = []
+  · left; simp [hh]
+  · by_cases h6 : u.family = .inet6
+    · left; simp [hh, h6]
+    · cases full with
+      | false => left; simp [hh, h6]
+      | true =>
+        cases he : env.idnaEnc u.host with
+        | some h => left; simp [hh, h6, he]
+        | none => right; simp [hh, h6, he]
+
+example : toText ⟨id, fun _ => false, fun _ => false, some, fun _ => none⟩ true u0 = .error .unicodeError := by
+  decide +kernel
+
+/-- the port text goes through the port reader of `parse_url` (the builtin `int()` in the code as it stands; its
+    parameters - accepted digit runs, stripped white space, sign, underscores - are regenerated by probing
+    `parse_url`): whatever the text is - digits of any script, superscript or circled digits (`str.isdigit` but not
+    decimal), fractions, letters, white space of any kind - and whatever the parameters are, the outcome is a
     port, no port (empty text), or URLParseError; no other exception -/
 theorem port_total (s : Text) :
     (∃ p, parsePort s = .ok p) ∨ parsePort s = .error .urlParseError := by
@@ -261,14 +627,21 @@ theorem port_total (s : Text) :
   | ok p => exact Or.inl ⟨p, rfl⟩
   | error e => rw [parsePort_err h]; exact Or.inr rfl
 
-/- ARABIC-INDIC THREE ONE = 31; NO-BREAK SPACE 8 IDEOGRAPHIC SPACE = 8; 1_0 = 10;
-   SUPERSCRIPT TWO, CIRCLED DIGIT ONE, VULGAR FRACTION ONE HALF, U+001C 1, MINUS SIGN 1: URLParseError -/
-example : (parsePort [0x663, 0x661]).toOption = some (some 31) := by decide +kernel
-example : (parsePort [0xA0, 56, 0x3000]).toOption = some (some 8) := by decide +kernel
-example : (parsePort [49, 95, 48]).toOption = some (some 10) := by decide +kernel
+/- whatever the regenerated parameters of the port reader are: `80` is port 80, the empty text is no port;
+   SUPERSCRIPT TWO, CIRCLED DIGIT ONE, VULGAR FRACTION ONE HALF, U+001C 1, MINUS SIGN 1, `0x10`: URLParseError -/
+example : (parsePort [56, 48]).toOption = some (some 80) ∧ (parsePort []).toOption = some none := by decide +kernel
 example : (parsePort [0xB2]).toOption = none ∧ (parsePort [0x2460]).toOption = none ∧
     (parsePort [0xBD]).toOption = none ∧ (parsePort [0x1C, 49]).toOption = none ∧
-    (parsePort [0x2212, 49]).toOption = none := by decide +kernel
+    (parsePort [0x2212, 49]).toOption = none ∧ (parsePort [48, 120, 49, 48]).toOption = none := by decide +kernel
+/- with the parameters of the builtin `int()` (what the probing finds while parse_url calls it unguarded):
+   ARABIC-INDIC THREE ONE = 31; NO-BREAK SPACE 8 IDEOGRAPHIC SPACE = 8; 1_0 = 10; -1 = -1 -/
+example : portZeros.contains 0x660 = true → (parsePort [0x663, 0x661]).toOption = some (some 31) := by decide +kernel
+example : portSpaces.contains 0xA0 = true → portSpaces.contains 0x3000 = true →
+    (parsePort [0xA0, 56, 0x3000]).toOption = some (some 8) := by decide +kernel
+example : portUnderscore = true → (parsePort [49, 95, 48]).toOption = some (some 10) := by decide +kernel
+example : portMinus = true → (parsePort [45, 49]).toOption = some (some (-1)) := by decide +kernel
+/- and with a reader that accepts nothing but ASCII digits (RFC 3986 `port = *DIGIT`) the same texts are rejected -/
+example : portUnderscore = false → (parsePort [49, 95, 48]).toOption = none := by decide +kernel
 
 /-- the loop of `find_all_links` never raises, whatever the regular expression matched -/
 theorem find_all_links_total (env : Env) (o : LinkOpts) (ms : List (Text × Text)) (tail : Text) :
